@@ -202,48 +202,62 @@ fn run(ctx: &RunCtx) -> Result<(), Violation> {
             wgen::leaves(val, &mut pool);
         }
     }
-    // filters
+    // filters: all candidate texts are generated first (tape), then parsed and compiled in this worker's order
+    // (forward, or reverse when the worker runs with WFSIM_REVERSE): results must not depend on that order
     let sim_compiler = !chance(3, 10, "default_compiler");
     let nf = range(1, 6, "nfilters");
-    let mut texts = Vec::new();
-    let mut asts = Vec::new();
-    for _ in 0..nf * 2 {
-        if asts.len() >= nf {
-            break;
-        }
-        let Some(t) = wgen::gen_filter(&spec, &pool, 3) else { continue };
-        match catch_unwind(AssertUnwindSafe(|| scheme.parse(&t))) {
-            Ok(Ok(a)) => {
-                texts.push(t);
-                asts.push(a);
-            }
+    wgen::set_run_wildcard(chance(1, 2, "run.wildcard_on"));
+    let candidates: Vec<String> = (0..nf * 2).filter_map(|_| wgen::gen_filter(&spec, &pool, 3)).collect();
+    let nv = choose(3, "nvalues");
+    let vcandidates: Vec<String> = (0..nv).filter_map(|_| wgen::gen_value_expr(&spec)).collect();
+    wgen::set_run_wildcard(false);
+    let order_of = |n: usize| -> Vec<usize> { if ctx.reverse_order { (0..n).rev().collect() } else { (0..n).collect() } };
+    let mut parsed: Vec<Option<(FilterAst, Filter)>> = (0..candidates.len()).map(|_| None).collect();
+    for i in order_of(candidates.len()) {
+        match catch_unwind(AssertUnwindSafe(|| scheme.parse(&candidates[i]).map(|a| (a.clone(), compile(a, sim_compiler))))) {
+            Ok(Ok(x)) => parsed[i] = Some(x),
             Ok(Err(_)) => kernel::count("discarded_unparsable"),
             Err(_) => kernel::count("discarded_parse_panic"),
+        }
+    }
+    let mut vparsed: Vec<Option<(FilterValueAst, FilterValue)>> = (0..vcandidates.len()).map(|_| None).collect();
+    for i in order_of(vcandidates.len()) {
+        match catch_unwind(AssertUnwindSafe(|| scheme.parse_value(&vcandidates[i]).map(|a| (a.clone(), compile_value(a, sim_compiler))))) {
+            Ok(Ok(x)) => vparsed[i] = Some(x),
+            _ => kernel::count("discarded_unparsable"),
+        }
+    }
+    // the first `nf` candidates (by generation index) that parsed: the same set whatever the order
+    let mut texts = Vec::new();
+    let mut asts = Vec::new();
+    let mut filters = Vec::new();
+    for (i, p) in parsed.into_iter().enumerate() {
+        if let Some((a, f)) = p {
+            if asts.len() < nf {
+                texts.push(candidates[i].clone());
+                asts.push(a);
+                filters.push(f);
+            }
         }
     }
     if asts.is_empty() {
         return Ok(());
     }
-    let nv = choose(3, "nvalues");
     let mut vtexts = Vec::new();
     let mut vasts = Vec::new();
-    for _ in 0..nv {
-        let Some(t) = wgen::gen_value_expr(&spec) else { continue };
-        match catch_unwind(AssertUnwindSafe(|| scheme.parse_value(&t))) {
-            Ok(Ok(a)) => {
-                vtexts.push(t);
-                vasts.push(a);
-            }
-            _ => kernel::count("discarded_unparsable"),
+    let mut vfilters = Vec::new();
+    for (i, p) in vparsed.into_iter().enumerate() {
+        if let Some((a, f)) = p {
+            vtexts.push(vcandidates[i].clone());
+            vasts.push(a);
+            vfilters.push(f);
         }
     }
-    let filters: Vec<Filter> = asts.iter().map(|a| compile(a.clone(), sim_compiler)).collect();
-    let vfilters: Vec<FilterValue> = vasts.iter().map(|a| compile_value(a.clone(), sim_compiler)).collect();
 
     // ---- sequential baseline on the main thread (points are no-ops here), in a tape-chosen order
     let mut baseline = vec![vec![Outcome::Mismatch; ctxs.len()]; filters.len()];
     let mut vbaseline = vec![vec![Outcome::Mismatch; ctxs.len()]; vfilters.len()];
-    let rev = chance(1, 2, "baseline.rev");
+    let rev = chance(1, 2, "baseline.rev") != ctx.reverse_order;
     let order: Vec<(usize, usize)> = {
         let mut o: Vec<(usize, usize)> = (0..filters.len()).flat_map(|f| (0..ctxs.len()).map(move |c| (f, c))).collect();
         if rev {
@@ -264,6 +278,22 @@ fn run(ctx: &RunCtx) -> Result<(), Violation> {
                 return Err(v("sequential-execution-panicked", seams::panic_class(m), format!("`{}`: {m}", vtexts[f])));
             }
         }
+    }
+    // what this run computed, in canonical order: compared between the paired worker processes by the driver
+    {
+        let mut d = crate::rng::FNV_OFFSET;
+        for (f, row) in baseline.iter().enumerate() {
+            for (c, o) in row.iter().enumerate() {
+                d = crate::rng::fnv_bytes(d, format!("{f}/{c}/{o:?};").as_bytes());
+                crate::tr!("baseline filter {f} `{}` on context {c} -> {o:?}", texts[f]);
+            }
+        }
+        for (f, row) in vbaseline.iter().enumerate() {
+            for (c, o) in row.iter().enumerate() {
+                d = crate::rng::fnv_bytes(d, format!("v{f}/{c}/{o:?};").as_bytes());
+            }
+        }
+        kernel::set_result_digest(d);
     }
 
     // ---- tasks
